@@ -140,6 +140,8 @@ func (c *core) write(p []byte) (int, error) {
 					ferr = e2
 				}
 			}
+		} else if nn >= 0 && nn < len(p) {
+			n = nn // a destination that answers with a short count and NO error: not a failure it reports
 		}
 	}
 	e.Failed = fail
